@@ -596,7 +596,7 @@ func ruleLexerBack(c *Ctx) *RuleResult {
 func init() { register("B-STEP", ruleStepOverflow) }
 
 func ruleStepOverflow(c *Ctx) *RuleResult {
-	r := &RuleResult{Doc: "loops that advance a slice index by a variable step guard the increment against overflow: the latch is reached only when bound - i compared with the step shows that i + step stays on the same side of the bound", Floor: 1}
+	r := &RuleResult{Doc: "loops that advance a slice index by a variable step guard the increment against overflow: the latch is reached only when bound - i compared with the step shows that i + step stays on the same side of the bound (no such loop: nothing to guard)", Floor: 0}
 	for _, fn := range allFuncs(c.SLib) {
 		if !c.scopeOf(fn)["eval"] {
 			continue
@@ -622,9 +622,20 @@ func ruleStepOverflow(c *Ctx) *RuleResult {
 				}
 				// used as a slice index inside the loop?
 				used := false
+				viaCall := false
 				for _, ref := range *ph.Referrers() {
 					if ia, ok := ref.(*ssa.IndexAddr); ok && ia.Index == ph {
 						used = true
+					}
+					// handed to a function (a visitor closure, a helper): it may index with it
+					if call, ok := ref.(*ssa.Call); ok {
+						if _, isBuiltin := call.Call.Value.(*ssa.Builtin); !isBuiltin {
+							for _, a := range call.Call.Args {
+								if a == ssa.Value(ph) {
+									used, viaCall = true, true
+								}
+							}
+						}
 					}
 				}
 				if !used {
@@ -643,7 +654,11 @@ func ruleStepOverflow(c *Ctx) *RuleResult {
 				key := fmt.Sprintf("%s|%s+=%s#%d", fname(fn), "i", c.symStr(add.Y, 0), n)
 				pos := c.pos(add.Pos())
 				if bound == nil {
-					r.viol(key, pos, fname(fn), "a slice index is advanced by a variable step in a loop without a recognisable bound test")
+					if viaCall {
+						r.undecided(key, pos, fname(fn), "an index handed to a function is advanced by a variable step in a loop whose bound test is not a direct comparison: overflow guard not decided")
+					} else {
+						r.viol(key, pos, fname(fn), "a slice index is advanced by a variable step in a loop without a recognisable bound test")
+					}
 					continue
 				}
 				// every path from the header to the increment passes a test of (bound - i) against the step
